@@ -2782,13 +2782,22 @@ class PerspConvex(Convex):
             value_out = self.affine_out()
         else:
             value_out = self.affine_out
-        coef = self.multiplier * self.sign * scale
-        if self.xtype == 'X':
-            return coef * np.exp(value_in / scale) + value_out
-        elif self.xtype == 'L':
-            return - coef * np.log(value_in / scale) + value_out
-        else:
+        if self.xtype not in 'XL':
             raise ValueError('Unsupported convex/concave expression.')
+
+        def evaluate(v_in, v_scale, v_out):
+            coef = self.multiplier * self.sign * v_scale
+            if self.xtype == 'X':
+                return coef * np.exp(v_in / v_scale) + v_out
+            return - coef * np.log(v_in / v_scale) + v_out
+
+        series = [v for v in (value_in, scale, value_out) if isinstance(v, pd.Series)]
+        if not series:
+            return evaluate(value_in, scale, value_out)
+        index = series[0].index
+        pick = (lambda v, i: v.loc[i] if isinstance(v, pd.Series) else v)
+        return pd.Series([evaluate(pick(value_in, i), pick(scale, i), pick(value_out, i))
+                          for i in index], index=index)
 
     def __le__(self, other):
 
